@@ -54,19 +54,8 @@ def inf_test_kind(t) -> str:
     return table.get((r, el, neg), '?')
 
 
-def run(ctx, rep):
-    rep.explanation = (
-        "C03.S: the rescale flag is monotone (only the constant True is ever stored outside the constructor).  C03.G: in both calculate_with_* "
-        "methods the plain kernel result flows into an isinf test; on the true branch the flag is set and the value is re-assigned from a rescaling "
-        "kernel with the same arguments; when the flag is set only a rescaling kernel runs; the two methods agree.  C03.P: in every rescaling kernel "
-        "the scaler is the max over the flattened (category × state) axes of the very product that is divided, it is appended to the scalers list in "
-        "the same block as the division, and the sum of log scalers is added inside the weighted sum; the incremental kernel recomputes a node "
-        "whenever a child was rescaled and marks it."
-    )
-    rep.rule('C03.S', "once rescaling has been switched on it stays on: every store to the flag outside __init__ assigns True")
-    rep.rule('C03.G', "an infinite plain result switches the flag on and is replaced by a rescaled evaluation of the same arguments; flag on ⇒ rescaling kernel only")
-    rep.rule('C03.P', "per-node max scaling: scaler of the divided product, one per site over category×state, appended on the same path, log-sum added inside the weighted sum")
-    rep.not_decided += ["accuracy in the band where the plain result is finite but inaccurate", "agreement with an extended-range reference"]
+def check_scalers(ctx, rep):
+    """C03.P on every rescaling kernel; returns (module, kernels)"""
     m = ctx.prog.module(MODULE)
     kernels = {}
     for name, fn in m.functions.items():
@@ -101,6 +90,25 @@ def run(ctx, rep):
             rep.check('C03.P', f"{name}::recompute-when-a-child-was-rescaled", bool(child_flags) and g['is_or'] and marks, W, g,
                       f"{name}: a node must be recomputed (and marked) whenever its left or right child was rescaled; otherwise a stale unscaled partial is "
                       f"combined with scaled children")
+    return m, kernels
+
+
+def run(ctx, rep):
+    rep.explanation = (
+        "C03.S: the rescale flag is monotone (only the constant True is ever stored outside the constructor).  C03.G: in both calculate_with_* "
+        "methods the plain kernel result flows into an isinf test; on the true branch the flag is set and the value is re-assigned from a rescaling "
+        "kernel with the same arguments; when the flag is set only a rescaling kernel runs; the two methods agree.  C03.P: in every rescaling kernel "
+        "the scaler is the max over the flattened (category × state) axes of the very product that is divided, it is appended to the scalers list in "
+        "the same block as the division, and the sum of log scalers is added inside the weighted sum; the incremental kernel recomputes a node "
+        "whenever a child was rescaled and marks it."
+    )
+    rep.rule('C03.S', "once rescaling has been switched on it stays on: every store to the flag outside __init__ assigns True")
+    rep.rule('C03.G', "an infinite plain result switches the flag on and is replaced by a rescaled evaluation of the same arguments; flag on ⇒ rescaling kernel only")
+    rep.rule('C03.P', "per-node max scaling: scaler of the divided product, one per site over category×state, appended on the same path, log-sum added inside the weighted sum")
+    rep.not_decided += ["accuracy in the band where the plain result is finite but inaccurate", "agreement with an extended-range reference"]
+    m, kernels = check_scalers(ctx, rep)
+    rescaling = {n for n, k in kernels.items() if k.scaler is not None}
+    plain = {n for n, k in kernels.items() if k.scaler is None}
     # an underflow of the plain kernels must surface as log(0) = -inf (that is what the isinf test of C03.G looks for); in every kernel the log is taken of the
     # site likelihood itself — a clamp / epsilon in between replaces tiny likelihoods by a bound instead of evaluating them with rescaling
     for name in sorted(kernels):
